@@ -114,6 +114,14 @@ def check_triple(T, M, W, obs, axis=False):
                 sa = np.asarray(tr.transform_non_affine(x[1:-1]), dtype=float)
                 obs.claim('axis', float(np.max(np.abs(sa - s[1:-1]))) <= 1e-4 * M,
                           'axis transform is not the inverse')
+                before_draw = np.asarray(tr.inverted().transform_non_affine(s[1:-1]), dtype=float)
+                ax.set_xlim(x[1], x[-2])
+                call(fig.canvas.draw)
+                ax.xaxis.get_major_locator().tick_values(x[1], x[-2])
+                ax.xaxis.get_minor_locator().tick_values(x[1], x[-2])
+                after_draw = np.asarray(ax.xaxis.get_transform().inverted().transform_non_affine(s[1:-1]), dtype=float)
+                obs.claim('axis', bool(np.array_equal(before_draw, after_draw)) and float(np.max(np.abs(after_draw - x[1:-1]) - 2e-6 * np.abs(x[1:-1]))) <= tol,
+                          "drawing the axis (computing its ticks) changed the scale's transform")
                 span = abs(x[-1] - x[0]) + 1.0
                 ax.set_xlim(x[0] - span, x[-1] + span)
                 lo, hi = ax.get_xlim()
